@@ -1,4 +1,6 @@
 """Gene-backed random sources and the deciders' bounded integer draws (C18, C07)."""
+import specs.sources  # noqa: F401  (declaration order)
+import specs.externals  # noqa: F401  (declaration order)
 from pyvc.spec import REG as R
 
 GE = "geneticengine/representations/grammatical_evolution/ge.py"
